@@ -90,68 +90,243 @@ def _const_byte(node, consts: Dict[str, Dict[str, bytes]]) -> Optional[int]:
     return None
 
 
-def classify_guard(fn: ast.FunctionDef, consts) -> Tuple[str, str]:
-    """-> (lean term, human note)"""
-    body = list(fn.body)
+def _short(stmt) -> str:
+    try:
+        t = ast.unparse(stmt).split("\n")[0]
+    except Exception:  # noqa: BLE001
+        t = type(stmt).__name__
+    return t if len(t) <= 70 else t[:67] + "..."
+
+
+def _is_encrypted(node) -> bool:
+    return _is_self_attr(node, "is_encrypted")
+
+
+def _refuse_test(test) -> bool:
+    """True on every unverified connection, whatever else it mentions:
+    `not self.is_encrypted` or `not self.is_encrypted or <anything>` (short-circuit)."""
+    if _is_not_encrypted(test):
+        return True
+    return isinstance(test, ast.BoolOp) and isinstance(test.op, ast.Or) and _is_not_encrypted(test.values[0])
+
+
+def _pass_test(test) -> bool:
+    """False on every unverified connection: `self.is_encrypted` or `self.is_encrypted and <anything>`.
+    (`self.is_encrypted or <x>` is NOT one: <x> can let an unverified connection through.)"""
+    if _is_encrypted(test):
+        return True
+    return isinstance(test, ast.BoolOp) and isinstance(test.op, ast.And) and _is_encrypted(test.values[0])
+
+
+def _is_unpriv_raise(stmt) -> bool:
+    if not (isinstance(stmt, ast.Raise) and stmt.exc is not None):
+        return False
+    exc = stmt.exc.func if isinstance(stmt.exc, ast.Call) else stmt.exc
+    return isinstance(exc, ast.Name) and exc.id == "UnprivilegedRequestException"
+
+
+def _refusal(stmts, consts):
+    """Straight-line statements executed on the refusing path, terminator excluded: nothing but logger
+    calls and exactly one refusal response -> "send401" | ("admin", seq) | "nothing" | None."""
+    core = [x for x in stmts if not _is_logger_call(x)]
+    if not core:
+        return "nothing"
+    if len(core) != 1:
+        return None
+    c = _self_call(core[0], "send_response")
+    if c is not None and len(c.args) == 1 and not c.keywords and isinstance(c.args[0], ast.Attribute) and c.args[0].attr == "UNAUTHORIZED":
+        return "send401"
+    c = _self_call(core[0], "_send_authentication_error_tlv_response")
+    if c is not None and len(c.args) == 1 and not c.keywords:
+        seq = _const_byte(c.args[0], consts)
+        if seq is not None:
+            return ("admin", seq)
+    return None
+
+
+def _ret_truth(stmt):
+    """`return <constant>` -> its truth value; bare `return` -> False; anything else -> None."""
+    if not isinstance(stmt, ast.Return):
+        return None
+    if stmt.value is None:
+        return False
+    if isinstance(stmt.value, ast.Constant):
+        return bool(stmt.value.value)
+    return None
+
+
+def _strip_leading(body):
+    """Drop what is provably effect-free on the protected state: the docstring, logger calls and
+    `assert self.X is not None`; returns (asserted attribute names, remaining statements)."""
+    body = list(body)
     if body and _is_docstring(body[0]):
         body = body[1:]
     asserted: List[str] = []
     while body:
         a = _assert_not_none_attr(body[0])
-        if a is None:
+        if a is not None:
+            asserted.append(a)
+        elif not _is_logger_call(body[0]):
             break
-        asserted.append(a)
         body = body[1:]
-    if not body or not isinstance(body[0], ast.If):
-        return ".none", "first statement is not a privilege test"
-    test, ibody = body[0].test, body[0].body
-    # shape 1/2: `if not self.is_encrypted:`
-    if _is_not_encrypted(test):
-        if asserted:
-            # only the admin shape is allowed to have asserts in front (keeps the model simple)
-            return ".none", "assert before a plain privilege test (not modelled)"
-        if len(ibody) == 1 and isinstance(ibody[0], ast.Raise) and ibody[0].exc is not None:
-            exc = ibody[0].exc
-            if isinstance(exc, ast.Call):
-                exc = exc.func
-            if isinstance(exc, ast.Name) and exc.id == "UnprivilegedRequestException":
-                return ".raiseUnpriv", "raise UnprivilegedRequestException"
-            return ".none", "raises something else"
-        sends = 0
-        ok = bool(ibody) and _bare_return(ibody[-1])
-        for s in ibody[:-1]:
-            if _is_logger_call(s):
-                continue
-            c = _self_call(s, "send_response")
-            if (
-                c is not None
-                and len(c.args) == 1
-                and isinstance(c.args[0], ast.Attribute)
-                and c.args[0].attr == "UNAUTHORIZED"
-            ):
-                sends += 1
-                continue
-            ok = False
-        if ok and sends == 1:
-            return ".send401", "send_response(UNAUTHORIZED); return"
-        return ".none", "unrecognised refusal body"
-    # shape 3: `if not self.is_encrypted or <anything>:` auth-error TLV; return
+    return asserted, body
+
+
+def _helper_call(node, methods):
+    """`self.<method of the same class>()` without arguments -> the method name."""
     if (
-        isinstance(test, ast.BoolOp)
-        and isinstance(test.op, ast.Or)
-        and _is_not_encrypted(test.values[0])
+        isinstance(node, ast.Call)
+        and not node.args
+        and not node.keywords
+        and isinstance(node.func, ast.Attribute)
+        and isinstance(node.func.value, ast.Name)
+        and node.func.value.id == "self"
+        and node.func.attr in methods
     ):
+        return node.func.attr
+    return None
+
+
+def classify_helper(fn, refused, consts, methods, depth):
+    """A guard helper of the same class, inlined. `refused` = the truth value the caller takes as
+    "was refused" (None: the caller ignores the result, the helper must raise).
+    Returns (kind, asserted, note); kind in "raise" | "send401" | ("admin", seq) | None.
+    The helper must consist of the guard only: a test of self.is_encrypted whose refusing branch only
+    logs, builds the refusal response and returns the refused constant (or raises
+    UnprivilegedRequestException) and whose other branch returns the opposite constant. Anything else
+    (extra conditions that can let an unverified connection pass, assignments, other calls) -> None."""
+    if not isinstance(fn, ast.FunctionDef) or fn.decorator_list:
+        return None, [], "helper is async or decorated"
+    a = fn.args
+    if len(a.args) != 1 or a.vararg or a.kwarg or a.kwonlyargs or a.posonlyargs:
+        return None, [], "helper takes arguments"
+    asserted, body = _strip_leading(fn.body)
+    if not body:
+        return None, [], "helper is empty"
+    # second level: `return self.<h2>()` / `return not self.<h2>()`
+    if len(body) == 1 and isinstance(body[0], ast.Return) and body[0].value is not None and depth < 2 and refused is not None:
+        v = body[0].value
+        neg = isinstance(v, ast.UnaryOp) and isinstance(v.op, ast.Not)
+        h2 = _helper_call(v.operand if neg else v, methods)
+        if h2 is not None:
+            k, as2, note = classify_helper(methods[h2], (not refused) if neg else refused, consts, methods, depth + 1)
+            return k, asserted + as2, f"{h2}: {note}"
+    first = body[0]
+    if len(body) == 1 and _is_helper_expr(first, methods) and depth < 2:
+        h2 = _helper_call(first.value, methods)
+        return classify_helper(methods[h2], None, consts, methods, depth + 1)
+    if not isinstance(first, ast.If):
+        return None, asserted, f"helper starts with `{_short(first)}`"
+    rest = body[1:]
+
+    def finish(refusing, terminator, other_ok, why):
+        kind = _refusal(refusing, consts)
+        if kind is None:
+            return None, asserted, f"refusing branch does more than log and build the refusal ({why})"
+        if _is_unpriv_raise(terminator):
+            if kind != "nothing":
+                return None, asserted, "response built and then raised"
+            kind = "raise"
+        else:
+            t = _ret_truth(terminator)
+            if t is None or refused is None or t != refused or kind == "nothing":
+                return None, asserted, f"refusing branch ends with `{_short(terminator)}`, caller expects {refused}"
+        if not other_ok:
+            return None, asserted, "the non-refusing branch does not simply return the opposite constant"
+        return kind, asserted, "helper guard"
+
+    def opposite(stmts) -> bool:
+        """what follows on the verified path: nothing (implicit None) or `return <opposite constant>`"""
+        if not stmts:
+            return refused is None or refused is True
+        return len(stmts) == 1 and _ret_truth(stmts[0]) is not None and (refused is None or _ret_truth(stmts[0]) != refused)
+
+    if _pass_test(first.test):
+        # if self.is_encrypted [and ...]: return <passed>;  <refusal>;  return <refused> / raise
+        if first.orelse or not opposite(first.body) or not first.body:
+            return None, asserted, "pass branch is not a plain `return <constant>`"
+        if not rest:
+            return None, asserted, "nothing refuses after the pass test"
+        return finish(rest[:-1], rest[-1], True, "after the pass test")
+    if _refuse_test(first.test):
+        # if not self.is_encrypted [or ...]: <refusal>; return <refused> / raise;  [else] return <passed>
+        if not first.body:
+            return None, asserted, "empty refusing branch"
+        if first.orelse and rest:
+            return None, asserted, "statements after an if/else"
+        return finish(first.body[:-1], first.body[-1], opposite(first.orelse or rest), "refusing branch")
+    return None, asserted, f"helper test `{_short(first.test)}` is neither `self.is_encrypted [and ..]` nor `not self.is_encrypted [or ..]`"
+
+
+def _is_helper_expr(stmt, methods) -> bool:
+    return isinstance(stmt, ast.Expr) and _helper_call(stmt.value, methods) is not None
+
+
+def _lean_guard(kind, asserted) -> Tuple[str, str]:
+    if kind == "raise":
+        return ".raiseUnpriv", "raise UnprivilegedRequestException"
+    if kind == "send401":
+        return ".send401", "send_response(UNAUTHORIZED); return"
+    _, seq = kind
+    a = "true" if "client_uuid" in asserted else "false"
+    return f"(.adminAuthErr {a} {seq})", "admin test -> authentication-error TLV; return"
+
+
+def classify_guard(fn: ast.FunctionDef, consts, methods=None) -> Tuple[str, str]:
+    """-> (lean term, human note). Anything not recognised is `.none` with the reason."""
+    methods = methods or {}
+    asserted, body = _strip_leading(fn.body)
+    if not body:
+        return ".none", "handler has no statements"
+    first = body[0]
+    kind = None
+    why = ""
+    # (c) `self.<helper>()` as a statement: the helper must raise on an unverified connection
+    if _is_helper_expr(first, methods):
+        h = _helper_call(first.value, methods)
+        kind, as2, why = classify_helper(methods[h], None, consts, methods, 1)
+        asserted = asserted + as2
+        why = f"via {h}(): {why}"
+        if kind not in (None, "raise"):
+            kind, why = None, f"via {h}(): helper builds a refusal but the handler goes on"
+    elif isinstance(first, ast.If):
+        test, ibody = first.test, first.body
+        neg = isinstance(test, ast.UnaryOp) and isinstance(test.op, ast.Not)
+        h = _helper_call(test.operand if neg else test, methods)
+        if h is not None:
+            # (b) `if self.<helper>(): return` / `if not self.<helper>(): return`
+            core = [x for x in ibody if not _is_logger_call(x)]
+            if len(core) == 1 and _bare_return(core[0]) and core[0] is ibody[-1]:
+                kind, as2, why = classify_helper(methods[h], not neg, consts, methods, 1)
+                asserted = asserted + as2
+                why = f"via {h}(): {why}"
+            else:
+                why = f"`if {'not ' if neg else ''}self.{h}()` does not simply return"
+        elif _refuse_test(test):
+            # (a) the test written out in the handler
+            if ibody and _is_unpriv_raise(ibody[-1]):
+                kind = "raise" if _refusal(ibody[:-1], consts) == "nothing" else None
+            elif ibody and _bare_return(ibody[-1]):
+                kind = _refusal(ibody[:-1], consts)
+                if kind == "nothing":
+                    kind = None
+            why = "privilege test in the handler" if kind else f"unrecognised refusal body `{_short(ibody[0]) if ibody else ''}`"
+            if kind is not None and isinstance(kind, tuple) and _is_not_encrypted(test):
+                pass  # auth-error TLV behind a plain test: same refusal
+        else:
+            why = f"first test `{_short(test)}` is not a privilege test"
+    else:
+        why = f"first statement `{_short(first)}` is not a privilege test"
+    if kind is None:
+        return ".none", why or "unrecognised"
+    # asserts in front are only modelled for the admin shape (client_uuid)
+    if isinstance(kind, tuple):
         if set(asserted) - {"client_uuid"}:
             return ".none", "unexpected assert before the admin test"
-        if len(ibody) == 2 and _bare_return(ibody[1]):
-            c = _self_call(ibody[0], "_send_authentication_error_tlv_response")
-            if c is not None and len(c.args) == 1:
-                seq = _const_byte(c.args[0], consts)
-                if seq is not None:
-                    a = "true" if "client_uuid" in asserted else "false"
-                    return f"(.adminAuthErr {a} {seq})", "admin test -> authentication-error TLV; return"
-        return ".none", "unrecognised admin refusal body"
-    return ".none", "first test is not `not self.is_encrypted`"
+    elif asserted:
+        return ".none", "assert before a plain privilege test (not modelled)"
+    lean, note = _lean_guard(kind, asserted)
+    return lean, note + ("" if why in ("privilege test in the handler", "") else f" [{why}]")
 
 
 def _class_consts(mod: ast.Module) -> Dict[str, Dict[str, bytes]]:
@@ -240,7 +415,7 @@ def extract() -> Dict:
             if fn is None:
                 guard, note, sets = ".none", "handler method not found", True
             else:
-                guard, note = classify_guard(fn, consts)
+                guard, note = classify_guard(fn, consts, methods)
                 sets = reach[hname]
             routes.append(
                 {"method": method, "path": path, "handler": hname, "guard": guard, "note": note, "sets": sets}
